@@ -376,6 +376,15 @@ func cmdCheck(args []string) int {
 			continue
 		}
 		v.Reproduced = reproduced(v, rr)
+		// Go randomises map iteration; the engine explores one order (or the permuted
+		// ones): give order-dependent counterexamples a few more native runs
+		for try := 0; !v.Reproduced && try < 12 && !rr.TimedOut; try++ {
+			rr, err = rp.Run(v, file, to)
+			if err != nil {
+				break
+			}
+			v.Reproduced = reproduced(v, rr)
+		}
 		v.ReplayOut = tail(rr.Out, 1500)
 		writeAssignment(file, v)
 		if !v.Reproduced {
